@@ -22,6 +22,10 @@ static int mixed_at_quiescence(void) {
 static void mixed_final(void) {
   for (int i = 0; subs[i]; i++)
     if (subs[i]->final_check) subs[i]->final_check();
+  // C01/C02(b): >= 2 kernel threads, a steal, and a wake-up that arrived before the sleeper had switched away
+  if (g_case.threads >= 2 && g_steals() > 0) vs_label_add("nt_steal", 1);
+  if (g_case.threads >= 2 && g_steals() > 0 && g_early_wakes() > 0) vs_label_add("nt_steal_early", 1);
+  if (g_case.threads >= 2 && g_steals() > 0) vs_label_add("nontrivial", 1);
 }
 const harness_t h_mixed = {"mixed", mixed_setup, mixed_do_op, mixed_at_quiescence, mixed_final, 0};
 
